@@ -154,6 +154,20 @@ Section Steps.
       gcd_loop (S (dx + dy)) g ;;;
       gg <-- pload g ;;;
       if (length gg <=? 1)%nat then pstor g [1] else pskip.
+  (* the two seeded / historical variants, kept so that their failure is a checked statement (ProofsPoly.v):
+     mul without its guard, and gcd with the two assignments of the "deg P < deg Q" branch swapped *)
+  Definition P_mul_unguarded (r a b : loc) : PM unit := V_mul_body r a b.
+  Definition P_gcd_swapped (g a b : loc) : PM unit :=
+    x <-- pload a ;;; y <-- pload b ;;;
+    let dx := length (strip0 p x) in let dy := length (strip0 p y) in
+    if (dx =? 0)%nat || (dy =? 1)%nat then V_assign g b
+    else if (dy =? 0)%nat || (dx =? 1)%nat then V_assign g a
+    else
+      (if (dy <=? dx)%nat then V_assign (T 8) a ;;; V_assign g b
+       else V_assign g a ;;; V_assign (T 8) b) ;;;
+      gcd_loop (S (dx + dy)) g ;;;
+      gg <-- pload g ;;;
+      if (length gg <=? 1)%nat then pstor g [1] else pskip.
 End Steps.
 
 (* ------------------------------------------------------------------ Z-level wrappers for extraction *)
